@@ -830,7 +830,7 @@ def correspond(ctx):
     if not ok:
         ctx.break_("build:Hbond/Run.vo", log)
     run_store(ctx)
-    systems = build_systems(ctx, 45 if quick else 1200)
+    systems = build_systems(ctx, 45 if quick else 1000)
     ctx.log("systems:", len(systems))
     run_systems(ctx, systems)
 
